@@ -1778,7 +1778,16 @@ func checkC17(w *World, r *Report) {
 		// the listener goroutine: Done on the stop WaitGroup when Serve returns; cancel when stopCh fires
 		okG := false
 		okC := false
-		for _, af := range rstart.AnonFuncs {
+		goBodies := append([]*ssa.Function{}, rstart.AnonFuncs...)
+		for _, in := range w.insOf(rstart) {
+			// a goroutine body written as a named method: `go r.awaitStop(cancel)`
+			if gi, isGo := in.(*ssa.Go); isGo {
+				if f := gi.Call.StaticCallee(); f != nil && w.isLib(f) && f.Parent() == nil {
+					goBodies = append(goBodies, f)
+				}
+			}
+		}
+		for _, af := range goBodies {
 			ag := w.FGI(af)
 			for _, d := range ag.defers {
 				if f := ag.ins[d].(*ssa.Defer).Call.StaticCallee(); f != nil && strings.HasSuffix(f.String(), "WaitGroup).Done") {
